@@ -311,10 +311,10 @@ type concProbe struct {
 	parkAt   int       // >=0: only this Emit call parks, and only ctx.Done() wakes it (D5 recipe); -1: none
 	slowAt   int       // this Emit call sleeps slowMs before it returns (a source that is quiet for a while)
 	slowMs   int
-	slowret  int       // the parked call takes this many ms to return after its ctx was cancelled (slow to cancel)
-	errAt    int       // Emit call index that fails; -1: none
-	yield    int       // slow source: Gosched this many times per Emit
-	entered  chan int  // receives the call index when an Emit call has started (buffered)
+	slowret  int      // the parked call takes this many ms to return after its ctx was cancelled (slow to cancel)
+	errAt    int      // Emit call index that fails; -1: none
+	yield    int      // slow source: Gosched this many times per Emit
+	entered  chan int // receives the call index when an Emit call has started (buffered)
 	cursor   atomic.Int32
 	calls    atomic.Int32
 	returned atomic.Int32 // Emit calls that returned a value
@@ -460,6 +460,7 @@ type concCase struct {
 	script   []int
 	child    bool   // run in a re-exec'd child process (the case may crash the process)
 	ofail    string // "" | "err" | "panic": a lifecycle element placed AFTER the async stage whose Open fails
+	dl       bool   // the caller's context ends by its DEADLINE (ctx.Err() = context.DeadlineExceeded) instead of a cancel call
 	osat     bool   // the failing Open waits until the stage has saturated (the source is no longer pulled: workers hold results nobody takes)
 	rep      int    // materialise the SAME stream value this many times (>= 1)
 	slowat   int    // source Emit call index that takes `slowms` milliseconds before it returns (-1 = none): a quiet source
@@ -537,6 +538,8 @@ func parseConcCase(text string) (*concCase, error) {
 			cc.ofail = v
 		case "osat":
 			cc.osat = v == "1"
+		case "dl":
+			cc.dl = v == "1"
 		case "slowat":
 			cc.slowat = atoi()
 		case "slowms":
@@ -595,8 +598,8 @@ func concErrClass(err error) string {
 	switch {
 	case err == nil:
 		return "ok"
-	case errors.Is(err, context.Canceled):
-		return "ctx"
+	case errors.Is(err, context.Canceled), errors.Is(err, context.DeadlineExceeded):
+		return "ctx" // the caller's context ended (by a cancel call or, `dl=1`, by its deadline)
 	case errors.Is(err, errConcUser):
 		return "user"
 	case strings.Contains(err.Error(), "recovered"):
@@ -1010,12 +1013,75 @@ var concHangs atomic.Int32
 
 const concMaxHangs = 6
 
+// concDeadlineCtx: a caller context that ends the way a context with a deadline does - Done() closes and Err() reports
+// context.DeadlineExceeded - at the moment the scripted environment chooses (a real timer cannot be scripted). It is not
+// linked to its parent's cancellation (no watcher goroutine, which would count as a leftover): the rescue paths end it.
+type concDeadlineCtx struct {
+	context.Context
+	done chan struct{}
+	mu   sync.Mutex
+	err  error
+}
+
+func (c *concDeadlineCtx) Done() <-chan struct{} { return c.done }
+func (c *concDeadlineCtx) Err() error {
+	c.mu.Lock()
+	defer c.mu.Unlock()
+	return c.err
+}
+func (c *concDeadlineCtx) Deadline() (time.Time, bool) { return time.Now().Add(time.Hour), true }
+
+func newConcDeadlineCtx(parent context.Context) (context.Context, context.CancelFunc) {
+	c := &concDeadlineCtx{Context: parent, done: make(chan struct{})}
+	var once sync.Once
+	return c, func() {
+		once.Do(func() {
+			c.mu.Lock()
+			c.err = context.DeadlineExceeded
+			c.mu.Unlock()
+			close(c.done)
+			// contexts derived from a foreign parent are cancelled by watcher goroutines of package context, not in the
+			// closing call itself: wait until they have done so, so that "everything is blocked" means what it says
+			for i := 0; i < 5000 && concCtxPropagating(); i++ {
+				time.Sleep(20 * time.Microsecond)
+			}
+		})
+	}
+}
+
+// concCtxPropagating: is a watcher goroutine of package context (propagateCancel) awake?
+func concCtxPropagating() bool {
+	concScanMu.Lock()
+	defer concScanMu.Unlock()
+	n := runtime.Stack(concStackBuf, true)
+	for n == len(concStackBuf) {
+		concStackBuf = make([]byte, 2*len(concStackBuf))
+		n = runtime.Stack(concStackBuf, true)
+	}
+	for _, g := range strings.Split(string(concStackBuf[:n]), "\n\n") {
+		if !strings.Contains(g, "propagateCancel") {
+			continue
+		}
+		hdrEnd := strings.IndexByte(g, '\n')
+		if hdrEnd < 0 {
+			hdrEnd = len(g)
+		}
+		if !strings.Contains(g[:hdrEnd], "[select") {
+			return true
+		}
+	}
+	return false
+}
+
 // materialise runs the terminal once on the case's (shared) stream value under the scripted scheduler and returns
 // the result class; trace / hang are appended to obs.
 func (r *concRun) materialise(root context.Context, rootCancel context.CancelFunc, obs *concObs) string {
 	const watchdog = 3 * time.Second
 	cc := r.cc
 	r.ctx, r.cancel = context.WithCancel(root)
+	if cc.dl {
+		r.ctx, r.cancel = newConcDeadlineCtx(root)
+	}
 	r.filtCall = 0
 	r.cbCalls = 0
 	r.cbDone, r.cbFailed, r.pipeRet = 0, false, false
@@ -1161,6 +1227,7 @@ func (r *concRun) materialise(root context.Context, rootCancel context.CancelFun
 		// rescue: cancel everything so that the process can go on, and say so
 		concHangs.Add(1)
 		rootCancel()
+		r.cancel()
 		r.mgate.releaseAll()
 		r.cgate.releaseAll()
 		if r.src.gate != nil {
@@ -1230,6 +1297,7 @@ func concRunOnce(cc *concCase) concObs {
 	obs.leak += concQuiesce(r.ignore, time.Second)
 	if obs.leak > 0 {
 		rootCancel()
+		r.cancel()
 		r.mgate.releaseAll()
 		r.cgate.releaseAll()
 		if r.src.gate != nil {
